@@ -418,6 +418,13 @@ impl<'a, 'o, 'c> CommonMarkFormatter<'a, 'o, 'c> {
     fn format_front_matter(&mut self, front_matter: &[u8], entering: bool) {
         if entering {
             self.output(front_matter, false, Escaping::Literal);
+            if front_matter.ends_with(b"\r") {
+                // A lone CR ends a line just as LF does.
+                self.column = 0;
+                self.begin_line = true;
+                self.begin_content = true;
+                self.last_breakable = 0;
+            }
         }
     }
 
